@@ -424,6 +424,25 @@ func C06(p *engine.Prog, r *engine.Report) {
 	c05R6(p, r, "C06-R8")
 	unconditionalSetterRule(p, r, "C06-R8", "SetNonce", "stateAccount", "setNonce", "Nonce")
 	unconditionalSetterRule(p, r, "C06-R8", "SetEpoch", "stateAccount", "setEpoch", "Epoch")
+	// ---------------- R9: nothing enters the pool unvalidated, whatever its origin (re-injected after a reorg,
+	// restored by the keeper, parked during sync): TxPool.add reaches put only behind validate(...) == nil
+	if add := mustFunc(p, r, "core/mempool", "TxPool.add"); add != nil {
+		r.Fn(engine.FuncName(add))
+		var g []engine.Guard
+		for _, c := range callsTo(add, "core/mempool.TxPool.validate") {
+			if cv, ok := c.(*ssa.Call); ok {
+				g = append(g, nilErrGuards(add, cv)...)
+			}
+		}
+		n := 0
+		for _, c := range callsTo(add, "core/mempool.TxPool.put") {
+			n++
+			r.Check(len(g) > 0 && engine.OnlyThroughPass(add, c.Block(), g), "C06-R9", "TxPool.add|a transaction is stored only after validate(...) == nil", p.InstrPos(c), "behind the nil-error edge of pool.validate", "some kind of submission reaches put without validation (e.g. transactions re-injected after a reorg): an already included transaction sits in the pool again, is announced to peers and offered to the builder until the next pruning pass")
+		}
+		if n == 0 {
+			r.Und("C06-R9", "TxPool.add|store", p.Pos(add.Pos()), "put not called")
+		}
+	}
 	r.Floor("C06-R7", 4, "Address, Balance, Nonce, Epoch, ContractData")
 }
 
